@@ -57,7 +57,8 @@ def has_positional_call(text):
 
 
 def _ddict_factories(d):
-    return [x[1] for x in gv.walk(d) if x[0] == "ddict"]
+    return [x[1] for x in gv.walk(d) if x[0] == "ddict"] + [
+        "list" for x in gv.walk(d) if x[0] == "raw" and x[1].startswith("defaultdict(list")]
 
 
 def signature(case):
